@@ -113,7 +113,7 @@ def run(spec):
   sp = case.space
   cls = ['geos:%d' % len(sp.geos)]
   det = L.describe(case)
-  res = L.run_search(case, 'exhaustive_search')
+  res = L.run_search(case, 'exhaustive_search', history=spec.get('history'))
   if res[0] != 'ok':
     return {'viol': [], 'nt': False, 'cls': cls + ['search:' + res[0]], 'dc': 0}
   recs, mm = res[1], res[2]
